@@ -6,9 +6,9 @@
    Spec: Spec/C07Lists.v, Spec/C07Sections.v (encoders over every free byte, meanings, wf as bool). *)
 From Coq Require Import String.
 From PV Require Import Base.Bytes Base.Outcome Base.Prim Base.Enum Spec.PrimSpec
-  Model.C07Kinds Model.C07Lists Model.C07Inst Gen.C07Tables Spec.C07Lists Spec.C07Sections
+  Model.C07Kinds Model.C07Lists Model.C07Session Model.C07Inst Gen.C07Tables Spec.C07Lists Spec.C07Sections
   Proofs.C07V4 Proofs.C07V5 Proofs.C07Tables Proofs.C07Units Proofs.C07Top Proofs.C07Enum
-  Proofs.C07Classify.
+  Proofs.C07Classify Proofs.C07Session.
 From Coq Require Import ZArith List Bool.
 Import ListNotations.
 Open Scope string_scope.
@@ -161,6 +161,121 @@ Theorem C07_range_enumeration_exact : forall T S version stream cus refs (ex : l
 Proof. exact iter_range_lists_exact. Qed.
 Print Assumptions C07_range_enumeration_exact.
 
+(* ================================================================== any call order (Model/C07Session.v)
+   The objects DWARFInfo.location_lists()/range_lists() hand out share one stream per section with the
+   DIE parser, and three generators read relative to stream.tell() across their yields.  The session
+   model makes the cursors of .debug_loclists/.debug_rnglists and the per-unit DIE caches explicit;
+   a state is reachable when some sequence of public calls (DIE parsing of a unit: top DIE / a prefix /
+   all; fetches through DIE attributes; get_range_list_at_offset_ex; the five enumerations, each with
+   arbitrary such calls between its yields) leads to it from a freshly opened DWARFInfo. *)
+Notation c07_reachable := (reachable LLE_TABLES RLE_TABLES gen_loclists_CU_header gen_rnglists_CU_header gen_locview_pair).
+Notation c07_hooks S cus := (map (run_acts LLE_TABLES RLE_TABLES S cus)).
+
+(* dwarf_util._resolve_via_offset_table (DW_FORM_loclistx / DW_FORM_rnglistx): the value of
+   C07_by_offset_table, and the section stream is left where it was *)
+Theorem C07_offset_table_lookup_keeps_position : forall le stream cu index base cur,
+  resolve_via_offset_table_cur le stream cu index base cur
+  = do v <- resolve_via_offset_table le stream cu index base; Ok (v, cur).
+Proof. exact resolve_cur_eq. Qed.
+Print Assumptions C07_offset_table_lookup_keeps_position.
+
+(* hence parsing DIEs, for the first time or from the cache, never moves a list-section cursor *)
+Theorem C07_die_parsing_keeps_cursors : forall S cus s k n s',
+  c07_reachable S cus s -> act_parse S cus k n s = Ok s' -> ss_cur s' = ss_cur s.
+Proof. exact (die_parsing_keeps_cursors LLE_TABLES RLE_TABLES gen_loclists_CU_header gen_rnglists_CU_header gen_locview_pair). Qed.
+Print Assumptions C07_die_parsing_keeps_cursors.
+
+(* iter_location_lists, started in any reachable state (nothing parsed yet, partly or fully warmed
+   up, streams anywhere) and with any calls between its yields that do not read .debug_loclists
+   (pre-v5: any calls at all), yields exactly what the position-passing model yields ... *)
+Theorem C07_location_enumeration_any_history : forall S cus s version sched ys s',
+  c07_reachable S cus s -> op_in_domain S cus (OIterLoc version sched) = true ->
+  iter_location_lists_sess LLE_TABLES gen_loclists_CU_header gen_locview_pair S cus version (c07_hooks S cus sched) s
+  = Ok (ys, s') ->
+  iter_location_lists LLE_TABLES gen_loclists_CU_header gen_locview_pair S version (loc_stream S version) cus
+  = Ok (map fst ys).
+Proof. exact (location_enumeration_any_history LLE_TABLES RLE_TABLES gen_loclists_CU_header gen_rnglists_CU_header gen_locview_pair). Qed.
+Print Assumptions C07_location_enumeration_any_history.
+
+(* ... and it does yield them when the consumer parses DIEs between the yields *)
+Theorem C07_location_enumeration_total : forall S cus s version sched ls,
+  c07_reachable S cus s -> translatable S cus -> parse_only cus sched = true ->
+  iter_location_lists LLE_TABLES gen_loclists_CU_header gen_locview_pair S version (loc_stream S version) cus = Ok ls ->
+  exists ys s',
+    iter_location_lists_sess LLE_TABLES gen_loclists_CU_header gen_locview_pair S cus version (c07_hooks S cus sched) s
+    = Ok (ys, s') /\ map fst ys = ls.
+Proof. exact (location_enumeration_total LLE_TABLES RLE_TABLES gen_loclists_CU_header gen_rnglists_CU_header gen_locview_pair). Qed.
+Print Assumptions C07_location_enumeration_total.
+
+(* iter_range_lists: any reachable state, any calls between the yields (every list is reached by an
+   absolute seek); with C07_range_enumeration_exact: exactly the referenced lists *)
+Theorem C07_range_enumeration_any_history : forall S cus s version sched ys s',
+  c07_reachable S cus s ->
+  iter_range_lists_sess RLE_TABLES S cus version (c07_hooks S cus sched) s = Ok (ys, s') ->
+  iter_range_lists RLE_TABLES S version (rng_stream S version) cus = Ok (map fst ys).
+Proof. exact (range_enumeration_any_history LLE_TABLES RLE_TABLES gen_loclists_CU_header gen_rnglists_CU_header gen_locview_pair). Qed.
+Print Assumptions C07_range_enumeration_any_history.
+
+Theorem C07_range_enumeration_total : forall S cus s version sched ls,
+  c07_reachable S cus s -> translatable S cus -> parse_only cus sched = true ->
+  iter_range_lists RLE_TABLES S version (rng_stream S version) cus = Ok ls ->
+  exists ys s', iter_range_lists_sess RLE_TABLES S cus version (c07_hooks S cus sched) s = Ok (ys, s')
+                /\ map fst ys = ls.
+Proof. exact (range_enumeration_total LLE_TABLES RLE_TABLES gen_loclists_CU_header gen_rnglists_CU_header gen_locview_pair). Qed.
+Print Assumptions C07_range_enumeration_total.
+
+(* LocationLists.iter_CUs / RangeLists.iter_CUs: any reachable state, any calls between the yields;
+   with C07_unit_blocks_exact: exactly the unit blocks *)
+Theorem C07_unit_blocks_any_history : forall S cus s sched,
+  c07_reachable S cus s ->
+  (forall ys s', iter_CUs_loc_sess gen_loclists_CU_header S (c07_hooks S cus sched) s = Ok (ys, s') ->
+                 iter_CUs gen_loclists_CU_header (s_le S) 5 (loc_stream S 5) = Ok (map fst ys))
+  /\ (forall ys s', iter_CUs_rng_sess gen_rnglists_CU_header S (c07_hooks S cus sched) s = Ok (ys, s') ->
+                    iter_CUs gen_rnglists_CU_header (s_le S) 5 (rng_stream S 5) = Ok (map fst ys)).
+Proof. exact (unit_blocks_any_history LLE_TABLES RLE_TABLES gen_loclists_CU_header gen_rnglists_CU_header gen_locview_pair). Qed.
+Print Assumptions C07_unit_blocks_any_history.
+
+Theorem C07_unit_blocks_total : forall S cus s sched,
+  c07_reachable S cus s -> translatable S cus -> parse_only cus sched = true ->
+  (forall hs, iter_CUs gen_loclists_CU_header (s_le S) 5 (loc_stream S 5) = Ok hs ->
+              exists ys s', iter_CUs_loc_sess gen_loclists_CU_header S (c07_hooks S cus sched) s = Ok (ys, s')
+                            /\ map fst ys = hs)
+  /\ (forall hs, iter_CUs gen_rnglists_CU_header (s_le S) 5 (rng_stream S 5) = Ok hs ->
+                 exists ys s', iter_CUs_rng_sess gen_rnglists_CU_header S (c07_hooks S cus sched) s = Ok (ys, s')
+                               /\ map fst ys = hs).
+Proof. exact (unit_blocks_total LLE_TABLES RLE_TABLES gen_loclists_CU_header gen_rnglists_CU_header gen_locview_pair). Qed.
+Print Assumptions C07_unit_blocks_total.
+
+(* iter_CU_range_lists_ex on the ui-th block of iter_CUs(): any reachable state, any calls between
+   the yields that do not read .debug_rnglists; with C07_unit_block_lists_exact: exactly its lists *)
+Theorem C07_unit_block_lists_any_history : forall S cus s ui sched ys s',
+  c07_reachable S cus s -> op_in_domain S cus (OIterCUEx ui sched) = true ->
+  iter_block_lists_sess RLE_TABLES gen_rnglists_CU_header S ui (c07_hooks S cus sched) s = Ok (ys, s') ->
+  iter_block_lists RLE_TABLES gen_rnglists_CU_header S ui = Ok (map fst ys).
+Proof. exact (unit_block_lists_any_history LLE_TABLES RLE_TABLES gen_loclists_CU_header gen_rnglists_CU_header gen_locview_pair). Qed.
+Print Assumptions C07_unit_block_lists_any_history.
+
+Theorem C07_unit_block_lists_total : forall S cus s ui sched ls,
+  c07_reachable S cus s -> translatable S cus -> parse_only cus sched = true ->
+  iter_block_lists RLE_TABLES gen_rnglists_CU_header S ui = Ok ls ->
+  exists ys s', iter_block_lists_sess RLE_TABLES gen_rnglists_CU_header S ui (c07_hooks S cus sched) s = Ok (ys, s')
+                /\ map fst ys = ls.
+Proof. exact (unit_block_lists_total LLE_TABLES RLE_TABLES gen_loclists_CU_header gen_rnglists_CU_header gen_locview_pair). Qed.
+Print Assumptions C07_unit_block_lists_total.
+
+(* the restriction on the consumer is needed: reading the second list of a block between the first two
+   yields of iter_CU_range_lists_ex ends the enumeration after one list (op_in_domain = false there) *)
+Theorem C07_same_stream_fetch_refuted :
+  op_in_domain ex_S ex_cus (OIterCUEx 0 [[AGetRngEx 16]]) = false
+  /\ iter_block_lists RLE_TABLES gen_rnglists_CU_header ex_S 0
+     = Ok (rng_lists_raw true 4 12 [[ROffsetPair (1, 0%nat) (2, 0%nat)]; [RStartLength 5 (6, 0%nat)]])
+  /\ value_of (iter_block_lists_sess RLE_TABLES gen_rnglists_CU_header ex_S 0
+                 (c07_hooks ex_S ex_cus [[AGetRngEx 16]]) (fresh ex_cus))
+     = Ok [(rle_raw_meaning true 4 12 [ROffsetPair (1, 0%nat) (2, 0%nat)],
+            [ERaw "get_range_list_at_offset_ex" (rle_raw_meaning true 4 16 [RStartLength 5 (6, 0%nat)])])].
+Proof. exact ex_same_stream_fetch. Qed.
+Print Assumptions C07_same_stream_fetch_refuted.
+
 (* ================================================================== classification *)
 (* finite sweep: versions 2..5 x every name of ENUM_DW_AT x every name of ENUM_DW_FORM *)
 Theorem C07_classification : forall v n f c,
@@ -202,3 +317,17 @@ Proof. reflexivity. Qed.
 
 Example C07_ex_classification : (300 <=? decided)%nat = true.
 Proof. exact decided_many. Qed.
+
+(* a session on a freshly opened file whose DIE refers to its location list by index: enumeration
+   (the scan parses the indexed attribute), a fetch through the attribute, enumeration again with the
+   DIEs cached: the one list every time; its units are translatable and the schedule parse-only *)
+Example C07_ex_session :
+  exists ls, iter_location_lists LLE_TABLES gen_loclists_CU_header gen_locview_pair ex_S 5 (loc_stream ex_S 5) ex_cus = Ok ls
+             /\ length ls = 1%nat
+             /\ ex_run [OIterLoc 5 [[AParse 0 2]]; OAct (AFetch 0 1 "DW_AT_location"); OIterLoc 5 []] (fresh ex_cus)
+                = (map (ETups "iter_location_lists") ls ++ [ETups "fetch" (concat ls)]
+                   ++ map (ETups "iter_location_lists") ls, None).
+Proof. exact ex_fresh_enumeration. Qed.
+
+Example C07_ex_session_hypotheses : translatable ex_S ex_cus /\ parse_only ex_cus [[AParse 0 2]] = true.
+Proof. exact ex_translatable. Qed.
